@@ -252,17 +252,26 @@ func (a RuneSet) includes(b RuneSet) bool {
 			bi++
 			ai++
 		} else if bEntry.ref < aEntry.ref { // Does b have any pages not in a?
-			return false
+			// an empty page (as left by Delete) does not contain any rune
+			if bEntry.set != (pageSet{}) {
+				return false
+			}
+			bi++
 		} else {
 			// increment ai to match the page of b
 			ai = a.findPageFrom(ai+1, bEntry.ref)
-			if ai < 0 { // the page is not even in a
-				return false
+			if ai < 0 { // the page is not even in a : resume at its insertion position
+				ai = -ai - 1
 			}
 		}
 	}
-	//  did we look at every page?
-	return bi >= len(b)
+	// the remaining pages of b are not in a
+	for ; bi < len(b); bi++ {
+		if b[bi].set != (pageSet{}) {
+			return false
+		}
+	}
+	return true
 }
 
 // Len returns the number of runes in the set.
